@@ -516,7 +516,7 @@ def _r3_9(prog: Program, res: Result) -> None:
             pos_names = {x.id for x in ast.walk(pos) if isinstance(x, ast.Name)}
             # the match length moves the position: pos += len(var[0]) / pos -= len(..)
             moves = [a for a in walk_own(fn.node) if isinstance(a, ast.AugAssign) and isinstance(a.target, ast.Name) and a.target.id in pos_names
-                     and isinstance(a.op, (ast.Add, ast.Sub)) and var in {x.id for x in ast.walk(a.value) if isinstance(x, ast.Name)} and "len(" in norm(a.value)]
+                     and isinstance(a.op, (ast.Add, ast.Sub)) and var in {x.id for x in ast.walk(a.value) if isinstance(x, ast.Name)}]     # len(m[0]), m.end(), m.span()[1] ..
             if not moves:
                 continue
             ptxt = _regex_of(prog, fn, c.args[0])
@@ -534,7 +534,7 @@ def _r3_9(prog: Program, res: Result) -> None:
                        f"the pattern {ptxt!r} can match a line break: after `x = 1;` at the end of a line the widened range takes the newline and the indentation of the NEXT line, "
                        "so the following statement continues the previous line's block (or the result no longer parses)")
     if n == 0:
-        res.ok("R3.9", "pyrefact/", "package", "regex-widened deletion ranges", "none", trivial=True)
+        res.undecided("R3.9", "pyrefact/", "package", "regex-widened deletion ranges", "none found (the semicolon purge of remove_nodes is expected)")
 
 
 def _regex_of(prog: Program, fn: Func, e: ast.AST, depth: int = 0) -> Optional[str]:
